@@ -93,7 +93,9 @@ func ownViolations(prop string, res *RunResult) []Violation {
 	for _, v := range res.Violations {
 		p := v.Prop
 		if p == "PANIC" {
-			p = panicOwner[res.Spec.Scenario]
+			// a panic, deadlock or livelock inside the library: the process would not have got any
+			// further, so whatever property this run was checking did not hold in it
+			p = prop
 		}
 		if p == prop {
 			v.Prop = prop
@@ -157,7 +159,7 @@ func workerMain(t *testing.T) {
 			for _, v := range res.Violations {
 				vp := v.Prop
 				if vp == "PANIC" {
-					vp = panicOwner[res.Spec.Scenario]
+					vp = *fProp
 				}
 				if vp != *fProp {
 					wl.OtherCls[vp+":"+v.Class]++
@@ -789,10 +791,7 @@ func checkMain(t *testing.T) {
 			exit = 2
 			continue
 		}
-		if owner != prop {
-			agg.otherViol++
-			continue
-		}
+		_ = owner // (a process that dies inside the library fails whatever property the run was checking)
 		if _, dup := agg.viol[class]; dup {
 			continue
 		}
